@@ -114,8 +114,20 @@ func GenDef(r *rand.Rand, p *Profile) Cfg {
 				c.Nodes[i].Desc = T(pick(r, []string{"a command", "does this\nand that", "z"}))
 			}
 			if chance(r, p.Descs/3) {
-				c.Nodes[i].Args = Ts("<file>", "<n>")
-				c.Nodes[i].ArgsD = Ts("the file", "")
+				switch r.Intn(4) {
+				case 0:
+					c.Nodes[i].Args = Ts("<file>", "<n>")
+					c.Nodes[i].ArgsD = Ts("the file", "")
+				case 1:
+					c.Nodes[i].Args = Ts("<src>", "<dst>")
+					c.Nodes[i].ArgsD = Ts("", "where to")
+				case 2:
+					c.Nodes[i].Args = Ts("<one>")
+					c.Nodes[i].ArgsD = Ts(pick(r, []string{"", "the one"}))
+				default:
+					c.Nodes[i].Args = Ts("<a>", "<b>", "<c>")
+					c.Nodes[i].ArgsD = Ts("first", "second\nline", "third")
+				}
 			}
 		}
 		if chance(r, p.Descs) {
